@@ -17,6 +17,8 @@ type Exec struct {
 	fmtParent    map[*FmtStr]*FmtStr
 	fmtOf        map[string]*FmtStr
 	posOf        map[string]FmtPos
+	lastAcq      *State
+	monAcq       map[string]*State // state right after the latest acquisition of a monitor (old() of its guarantee clauses)
 	guardedBy    map[string]string // heap key of a guarded field -> mutex key of its monitor
 	sharedOf     map[string]string // slice term -> condition under which its backing array extends into elements of the slice it was cut from
 	coverDone    map[*AtSpec]bool
